@@ -497,6 +497,14 @@ def seq_len(ip, v):
         ip.raise_(TypeError, str(ex))
 
 
+def typing_facts(ip, v):
+    """facts that hold of every Python value of this kind (sequence lengths are bounded by sys.maxsize)"""
+    if isinstance(v, SV) and (v.kind in ('bytes', 'str') or v.kind[0] == 'seq'):
+        e = simp(v.e)
+        if not (z3.is_app(e) and e.decl().kind() in (z3.Z3_OP_SEQ_UNIT, z3.Z3_OP_SEQ_EMPTY)):
+            ip.st.assume_def(z3.Length(v.e) < (1 << 62))
+
+
 def elem_value(ip, s, idx):
     """element idx (z3 Int, assumed in range) of symbolic sequence s"""
     e = simp(s.e[idx])
@@ -505,7 +513,9 @@ def elem_value(ip, s, idx):
         return SV(e, 'int')
     if s.kind == 'str':
         return SV(simp(z3.SubSeq(s.e, idx, 1)), 'str')
-    return SV(e, s.kind[1])
+    r = SV(e, s.kind[1])
+    typing_facts(ip, r)
+    return r
 
 
 def index(ip, v, i):
